@@ -1,3 +1,5 @@
+//go:build !no_c07
+
 package props
 
 import (
